@@ -300,7 +300,7 @@ pub fn check(scn: &Scenario, c: &mut Counters) -> Verdict {
         let mut cache: HashMap<(String, String), String> = HashMap::new();
         let mut failed_keys: HashMap<(String, String), u32> = HashMap::new();
         let mut observed_r: HashMap<i64, String> = HashMap::new();
-        let mut failed_site: HashMap<usize, (i64, String, String)> = HashMap::new(); // rule -> (site, fn, msg)
+        let mut failed_site: HashMap<usize, Vec<(i64, String, String)>> = HashMap::new(); // rule -> (site, fn, msg)*
         let mut st = St::Idle;
         let mut hist = String::new();
         let abandoned = !matches!(out.ends[task], TaskEnd::Finished(_));
@@ -414,7 +414,7 @@ pub fn check(scn: &Scenario, c: &mut Counters) -> Verdict {
                     } else {
                         hist.push('f');
                         *failed_keys.entry((site.f.clone(), a.clone())).or_insert(0) += 1;
-                        failed_site.insert(site.rule, (k, site.f.clone(), val.clone()));
+                        failed_site.entry(site.rule).or_default().push((k, site.f.clone(), val.clone()));
                         St::Idle
                     }
                 }
@@ -511,20 +511,23 @@ pub fn check(scn: &Scenario, c: &mut Counters) -> Verdict {
                     }
                 }
                 Res::Err(e) => {
-                    let Some((k, f, msg)) = failed_site.get(&ri) else {
+                    let Some(failures) = failed_site.get(&ri) else {
                         return Verdict::violation(
                             "error-without-failed-call",
                             format!("rule {ri} of evaluation {task} | failed with {e:?} although no call of this rule failed in this evaluation"),
                         );
                     };
                     c.bump("hit.user_function_error_outcome");
+                    // which of several failed calls of the rule surfaces is a matter of evaluation order (C05);
+                    // the outcome must faithfully report one of them
+                    let (k, f, msg) = &failures[0];
                     if e.class != "UserFunctionError" {
                         return Verdict::violation(
                             "failure-not-user-function-error",
                             format!("site {k}: {f} failed with {msg:?} | the rule's outcome is {e:?}"),
                         );
                     }
-                    if e.payload.first() != Some(f) {
+                    if !failures.iter().any(|(_, f, _)| e.payload.first() == Some(f)) {
                         return Verdict::violation(
                             "failure-names-wrong-function",
                             format!("site {k}: {f} failed | the error outcome names {:?}", e.payload.first()),
@@ -536,7 +539,7 @@ pub fn check(scn: &Scenario, c: &mut Counters) -> Verdict {
                             format!("site {k}: {f} failed with {msg:?} | the typed error is neither the outcome's source nor in its chain"),
                         );
                     }
-                    if e.payload.get(1) != Some(f) || e.payload.get(2) != Some(msg) {
+                    if !failures.iter().any(|(_, f, msg)| e.payload.first() == Some(f) && e.payload.get(1) == Some(f) && e.payload.get(2) == Some(msg)) {
                         return Verdict::violation(
                             "failure-carries-other-error",
                             format!("site {k}: {f} failed with {msg:?} | the outcome carries {:?}", &e.payload[1..]),
